@@ -18,7 +18,7 @@ OPT = E.BatchErrorContinuationOption
 
 def plan(tier):
     return {
-        'level': 'exploration', 'shards': 16, 'budget_s': 75 if tier == 'quick' else 700,
+        'level': 'exploration', 'shards': 16, 'budget_s': 120 if tier == 'quick' else 700,
         'rule': 'batches of 1-6 items drawn from a menu of succeeding and deliberately failing '
                 'operations (not found, denied, invalid field, illegal state, index errors, random '
                 'well-formed operations) with ids present / absent / partially absent, STOP / CONTINUE / '
@@ -32,7 +32,7 @@ def plan(tier):
 
 
 def cases(tier, seed):
-    n = 64 if tier == 'quick' else 800
+    n = 256 if tier == 'quick' else 1600
     return [{'hist': i} for i in range(n)]
 
 
